@@ -511,6 +511,14 @@ func (p c13) pathsOn(e *c13env, fam string, root func() *node.Selection) {
 			pp2 := v[:i] + subs[e.c.Rand.Intn(len(subs))] + v[i:]
 			e.try(fam, "char-insert", pp2, true, find(pp2))
 		}
+		// a slash written %2F is part of a name, and no name has one: the path names nothing (least of all the node the
+		// same text with real slashes leads to)
+		if strings.Contains(v, "/") {
+			for _, pp := range []string{strings.Replace(v, "/", "%2F", 1), strings.ReplaceAll(v, "/", "%2F"), strings.Replace(v, "/", "%2f", 1)} {
+				pp := pp
+				e.try(fam, "encoded-slash", pp, true, find(pp))
+			}
+		}
 		// more key values than the list has key leaves, on every keyed segment
 		segs := strings.Split(v, "/")
 		for i, sg := range segs {
@@ -909,6 +917,11 @@ type c13Root struct {
 		U uint16
 		V string
 	}
+	W []*struct {
+		K  int64
+		W  *struct{ X string }
+		K2 []*struct{ J string }
+	}
 }
 
 // directed: request content and Go values at the edges of what the reflection nodes hold: an empty string as key, a key of a
@@ -923,7 +936,8 @@ func (p c13) directed(e *c13env) {
   list nl { key b; leaf b { type binary; } leaf c { type string; } }
   container c { leaf s { type string; } }
   list i { key i; leaf i { type int32; } leaf v { type string; } }
-  list u { key u; leaf u { type uint16; } leaf v { type string; } } }`)
+  list u { key u; leaf u { type uint16; } leaf v { type string; } }
+  list w { key k; leaf k { type int64; } container w { leaf x { type string; } } list k2 { key j; leaf j { type string; } } } }`)
 		if err != nil {
 			e.c.Violate("harness/directed-module", "%v", err)
 			return
@@ -937,10 +951,12 @@ func (p c13) directed(e *c13env) {
 		"reflect-map":    func() node.Node { return nodeutil.ReflectChild(map[string]interface{}{}) },
 		"node-map":       func() node.Node { return &nodeutil.Node{Object: map[string]interface{}{}} },
 		"reflect-typed-maps": func() node.Node {
-			return nodeutil.ReflectChild(map[string]interface{}{"i": map[int32]interface{}{5: map[string]interface{}{"i": 5, "v": "x"}}, "u": map[uint16]interface{}{7: map[string]interface{}{"u": 7, "v": "y"}}})
+			return nodeutil.ReflectChild(map[string]interface{}{"i": map[int32]interface{}{5: map[string]interface{}{"i": 5, "v": "x"}}, "u": map[uint16]interface{}{7: map[string]interface{}{"u": 7, "v": "y"}},
+				"w": map[int64]interface{}{5: map[string]interface{}{"k": int64(5), "w": map[string]interface{}{"x": "in"}}}})
 		},
 		"node-typed-maps": func() node.Node {
-			return &nodeutil.Node{Object: map[string]interface{}{"i": map[int32]interface{}{5: map[string]interface{}{"i": 5, "v": "x"}}, "u": map[uint16]interface{}{7: map[string]interface{}{"u": 7, "v": "y"}}}}
+			return &nodeutil.Node{Object: map[string]interface{}{"i": map[int32]interface{}{5: map[string]interface{}{"i": 5, "v": "x"}}, "u": map[uint16]interface{}{7: map[string]interface{}{"u": 7, "v": "y"}},
+				"w": map[int64]interface{}{5: map[string]interface{}{"k": int64(5), "w": map[string]interface{}{"x": "in"}}}}}
 		},
 	}
 	for sname, mk := range stores {
@@ -975,6 +991,21 @@ func (p c13) directed(e *c13env) {
 				}
 				return nil
 			})
+		}
+		// from an entry, ".." is the list: a name looked up there is looked up in the Go map that is keyed by the key leaf
+		if strings.Contains(sname, "typed-maps") {
+			b := node.NewBrowser(m, mk())
+			for _, rel := range []string{"../w", "../w/x", "../k2", "../k", "../w=5", "../../w=5/w/x"} {
+				rr := rel
+				e.try("directed", "name-looked-up-in-a-keyed-map/"+sname, "w=5 -> "+rr, true, func() error {
+					sel, err := b.Root().Find("w=5")
+					if err != nil || sel == nil {
+						return fmt.Errorf("find w=5: %v", err)
+					}
+					_, err = sel.Find(rr)
+					return err
+				})
+			}
 		}
 		b := node.NewBrowser(m, mk())
 		for _, pth := range []string{"c/s", "l=zz/name", "i=99/v", "c", "zz/s"} {
